@@ -135,7 +135,7 @@ func (c *ctx) shutdown() {
 // gauges evaluates property C20: the four in-flight gauges never drop below their value
 // at rest, equal the model at every quiescent point, and return to rest at the end.
 func (c *ctx) gauges() {
-	var base map[string]float64
+	var base, rest map[string]float64
 	type cst struct {
 		served  bool
 		alive   bool
@@ -189,10 +189,20 @@ func (c *ctx) gauges() {
 			}
 			if parts[0] == "baseline" {
 				base = g
+				rest = g
 				continue
 			}
 			if base == nil {
 				continue
+			}
+			if parts[0] == "sibling" {
+				// another Server of the process now holds idle connections: the burst on the
+				// main server is measured from here; rest (nothing at all open) stays as it was
+				base = g
+				continue
+			}
+			if parts[0] == "final" {
+				base = rest
 			}
 			for _, name := range []string{"serve_accepted", "handle_handlers", "sessions_active", "waitgroup_handle_routines_active"} {
 				d := g[name] - base[name]
